@@ -530,7 +530,11 @@ func genOps(r *rt.Rand, c fcfg, n int) []fop {
 				ops = append(ops, fop{Kind: "reopen"})
 			}
 		default:
-			if c.MaxDurMS > 0 && r.Bool() {
+			if c.MaxDurMS > 0 && r.Intn(4) == 0 {
+				// a quiet period right after Reopen: the file comes of age with nothing written to it since it
+				// was (re)opened, and the next write rotates it
+				ops = append(ops, fop{Kind: "write", Len: r.Range(8, 60)}, fop{Kind: "reopen"}, fop{Kind: "pause"}, fop{Kind: "write", Len: r.Range(8, 60)})
+			} else if c.MaxDurMS > 0 && r.Bool() {
 				// steady traffic: writes a third of MaxDuration apart, for longer than MaxDuration
 				for k := 0; k < 5; k++ {
 					ops = append(ops, fop{Kind: "nap"}, fop{Kind: "write", Len: r.Range(8, 40)})
